@@ -182,6 +182,8 @@ type PipeOpts struct {
 	AllowFailureProb float64
 	ForceClass   *ConfigClass
 	EnvProb      float64
+	// GraphFn, if set, supplies the task graph
+	GraphFn func(r *rand.Rand) Graph
 }
 
 // ConfigClass is one of the admission configuration classes (C05)
@@ -243,7 +245,9 @@ func RandPipe(r *rand.Rand, name string, o PipeOpts) PipeSpec {
 		}
 	}
 	var g Graph
-	if r.Intn(3) == 0 {
+	if o.GraphFn != nil {
+		g = o.GraphFn(r)
+	} else if r.Intn(3) == 0 {
 		g = Shape(r, r.Intn(7))
 		if len(g.Names) > o.MaxTasks {
 			g = RandDAG(r, o.MaxTasks, 0.4)
@@ -251,7 +255,7 @@ func RandPipe(r *rand.Rand, name string, o PipeOpts) PipeSpec {
 	} else {
 		g = RandDAG(r, 1+r.Intn(o.MaxTasks), 0.4)
 	}
-	if r.Float64() < o.CyclicProb {
+	if o.GraphFn == nil && r.Float64() < o.CyclicProb {
 		g = MakeCyclic(r, g)
 	}
 	def := definition.PipelineDef{
@@ -336,4 +340,43 @@ func ModelCfg(specs []PipeSpec) map[string]model.PipeCfg {
 		m[s.Name] = s.Cfg()
 	}
 	return m
+}
+
+// AllDAGs enumerates every labelled DAG on n nodes (n <= 4): every acyclic subset of the n*(n-1) possible edges
+func AllDAGs(n int) [][][2]int {
+	var edges [][2]int
+	for a := 0; a < n; a++ {
+		for b := 0; b < n; b++ {
+			if a != b {
+				edges = append(edges, [2]int{a, b}) // b depends on a
+			}
+		}
+	}
+	var out [][][2]int
+	for mask := 0; mask < 1<<len(edges); mask++ {
+		var sel [][2]int
+		g := Graph{Deps: map[string][]string{}}
+		for i := 0; i < n; i++ {
+			g.Names = append(g.Names, fmt.Sprint(i))
+		}
+		for i, e := range edges {
+			if mask&(1<<i) != 0 {
+				sel = append(sel, e)
+				g.Deps[fmt.Sprint(e[1])] = append(g.Deps[fmt.Sprint(e[1])], fmt.Sprint(e[0]))
+			}
+		}
+		if !IsCyclic(g) {
+			out = append(out, sel)
+		}
+	}
+	return out
+}
+
+// GraphFromEdges builds a graph over the given names
+func GraphFromEdges(names []string, edges [][2]int) Graph {
+	g := Graph{Names: append([]string(nil), names...), Deps: map[string][]string{}}
+	for _, e := range edges {
+		g.Deps[names[e[1]]] = append(g.Deps[names[e[1]]], names[e[0]])
+	}
+	return g
 }
